@@ -277,6 +277,7 @@ def check_mask(ctx):
         for n in ast.walk(g.node):
             if isinstance(n, ast.Subscript) and U(n.slice) == "free":
                 uses.append((g, n))
+    uses = [(g, n) for g, n in uses if not (g is fi and fv.node_of(n) is None)]  # nested bodies are listed under their own function
     outer_uses = [n for g, n in uses if g is fi]
     dom = all(fv.dominates(mask_store, n) for n in outer_uses) and all(fv.dominates(mask_store, g.node) for g, n in uses if g is not fi)
     ctx.decide(ok_grid and ok_init and dom and len(uses) >= 4, "MASK", site + ":constraints", (fi, mask_store),
